@@ -140,6 +140,9 @@ def scenario(rng, kind):
                        and s.loop.time() - t0 < 600):
                     s.advance(0.5)
                 s.advance(rng.choice([0.05, 0.4, GeckoConfig.PING_FREQUENCY_IN_SECONDS * 0.9]))
+                # ... and a whole refresh period after it: the background callers (refresh loop, facade update) wake up
+                # behind a gate that closed while they slept
+                s.advance(GeckoConfig.SPA_PACK_REFRESH_FREQUENCY_IN_SECONDS + 3)
             for i in range(n_calls):
                 name, api = rng.choice(sc.apis())
                 sc.start_call(api, gated=True)
@@ -227,7 +230,8 @@ def clause_for(e):
         return "content-requeued-without-a-wellformed-addressed-frame (or head-of-line)"
     return {"send": "send-violates-one-in-flight/arrival-order/retry-bound/freshness/gate",
             "ret": "return-value-or-duration", "pop": "pop-by-non-acceptor-or-out-of-order",
-            "call": "call", "put": "head-of-line", "mark": "mark"}.get(e.get("k"), e.get("k"))
+            "call": "call", "put": "head-of-line", "mark": "mark",
+            "bgcall": "background-query-started-behind-a-closed-gate"}.get(e.get("k"), e.get("k"))
 
 
 def run(ctx):
